@@ -14,7 +14,7 @@ use crate::{
         generate_key_pair,
         parameters::LmsParameter,
     },
-    util::helper::read_and_advance,
+    util::helper::read_and_advance_checked,
 };
 use crate::{hss::aux::hss_get_aux_data_len, lms::signing::LmsSignature};
 
@@ -208,9 +208,13 @@ impl<'a, H: HashChain> InMemoryHssPublicKey<'a, H> {
     pub fn new(data: &'a [u8]) -> Option<Self> {
         let mut index = 0;
 
-        let level = u32::from_be_bytes(read_and_advance(data, 4, &mut index).try_into().unwrap());
+        let level = u32::from_be_bytes(
+            read_and_advance_checked(data, 4, &mut index)?
+                .try_into()
+                .ok()?,
+        );
 
-        let public_key = InMemoryLmsPublicKey::new(&data[index..])?;
+        let public_key = InMemoryLmsPublicKey::new(data.get(index..)?)?;
 
         Some(Self {
             public_key,
